@@ -297,7 +297,7 @@ func (e *c02eval) classifySource(x *ssa.Extract) (core.AV, bool) {
 	name := core.StdCallee(&call.Call)
 	isStrSrc := func(v ssa.Value) bool {
 		v = core.Resolve(v)
-		if ta, ok := v.(*ssa.TypeAssert); ok && !ta.CommaOk && c02isRef(e.f, ta.X) && types.Identical(ta.AssertedType, types.Typ[types.String]) {
+		if ta := core.AssertOf(v); ta != nil && c02isRef(e.f, ta.X) && types.Identical(ta.AssertedType, types.Typ[types.String]) {
 			return true
 		}
 		if c, ok := v.(*ssa.Call); ok {
@@ -420,6 +420,20 @@ func (e *c02eval) eval(v ssa.Value) core.AV {
 		}
 		return unknown("constant")
 	case *ssa.Extract:
+		if ta := core.AssertOf(x); ta != nil {
+			// the variable bound by the type-switch clause
+			if c02isRef(e.f, ta.X) && e.caseT != nil && types.Identical(ta.AssertedType, e.caseT) {
+				e.setSrc(x, nil, "assert")
+				if b, ok := e.caseT.Underlying().(*types.Basic); ok && b.Kind() == types.Bool {
+					return core.AV{Bool: true, Src: true}
+				}
+				if r, ok := core.TypeRange(e.caseT); ok {
+					r.Src = true
+					return r
+				}
+			}
+			return unknown("type assertion that is not the clause's own source")
+		}
 		if a, ok := e.classifySource(x); ok {
 			return a
 		}
